@@ -87,7 +87,8 @@ Proof. eexists. split; [exists ex_trace; vm_compute; reflexivity|]. vm_compute. 
 Theorem C18_tie_source_shape :
   src_sync_dispatcher = ["s.Receive(ctx)"; "s.popHandler(msg.RequestID)"; "s.rcvLocker.lock()"; "s.rcvLocker.waitIfLock()"]%string /\
   src_select_branches = [("<-ctx.Done()", true); ("<-s.disconnected", true); ("msg := <-ch", false); ("<-timer.C", true)]%string /\
-  src_sync_SendRequestWithTimeout = ["s.reqLocker.waitIfLock()"; "s.getActiveChannelInstance()";
+  src_sync_SendRequestWithTimeout = ["s.reqLocker.waitIfLockThen(func() { s.pendingReq.Add(1) })"; "s.pendingReq.Add(1)";
+     "s.getActiveChannelInstance()"; "s.pendingReq.Done()";
      "s.sendRequestWithTimeout(ctx, req, s.nextRequestID(), active, authToken, timeout, h)"; "s.nextRequestID()"]%string.
 Proof. repeat split; reflexivity. Qed.
 
